@@ -972,6 +972,12 @@ func (p *Parser) Parse() (Statement, error) {
 
 	// Check syntax
 	if fieldsErr == nil {
+		// A where clause that is nothing but the name of a select field stands for that field
+		if name, ok := expr.(*NameExpr); ok {
+			if nexpr, have := checkCtx.GetNamedExpr(name.Data); have {
+				expr = &FieldReferenceExpr{Name: name, FieldExpr: nexpr}
+			}
+		}
 		err = expr.Check(checkCtx)
 		if err != nil {
 			return nil, err
